@@ -44,7 +44,7 @@ PROPS["C02"] = {
             "(never / always / random subset / only after DDL), each segment ended by process death (stores abandoned, nothing flushed) or clean shutdown; "
             "in segment 0 a crash image (copy of data file and log) is taken after EVERY statement and recovered with the real InitStorage; every image and every "
             "segment end is recovered twice and compared (value sequences, stable never-reused row ids, catalog) with the model at that statement boundary; later segments run on the recovered files. "
-            "Low-rate profile 'deep tree': a 1100-1500 row bulk load (three tree levels), then inserts/deletes/updates of the most recent rows before the crash points. One segment in four is interleaved with statements that are invalid on purpose (they must be refused and leave no trace, also in later recoveries). The refused statements also include CREATE TABLEs (existing table; a column the catalog cannot record). Non-trivial: some crash point had both flushed and log-only acknowledged changes (dirty pages present after an earlier flush) and the case contains UPDATE or DELETE; distinct by case JSON. Since round 11 one case in three recovers every image first with a recovery-time page cache of 8-96 pages (hook VerifInitCacheSize), judged only when the replayed pages never filled that cache.",
+            "Low-rate profile 'deep tree': a 1100-1500 row bulk load (three tree levels), then inserts/deletes/updates of the most recent rows before the crash points. One segment in four is interleaved with statements that are invalid on purpose (they must be refused and leave no trace, also in later recoveries). The refused statements also include CREATE TABLEs (existing table; a column the catalog cannot record). Non-trivial: some crash point had both flushed and log-only acknowledged changes (dirty pages present after an earlier flush) and the case contains UPDATE or DELETE; distinct by case JSON. Since round 11 one case in three recovers every image first with a recovery-time page cache of 8-96 pages (hook VerifInitCacheSize), judged only when the replayed pages never filled that cache. Since round 12: aged databases in three cases of eight; USE of the own database (any letter case) inside histories.",
     "technique": "fault injection by enumeration of crash points per generated history (rapid), recovery compared with a reference model",
     "level_text": "For every generated history all between-statement crash points of the first segment plus every segment end are enumerated and recovered with the real recovery code, under generated flush placements and repeated crash/recover cycles. Exhaustive per history, random over histories.",
     "level_note": "Crash = process death: every completed write is in the files (mkdb never fsyncs the data file, so this is the strongest model the code could meet). Flush timer replaced by explicit generated flushes (VerifFlush is the timer's tick). Trusted: reference model, image copy.",
@@ -58,7 +58,7 @@ PROPS["C03"] = {
             "EVERY write and fsync the victim issues on the log, and at each such point two crash images are taken (log as written so far; log cut at the last fsync); every image is "
             "recovered with the real InitStorage and must equal the model state before the victim plus the first r row operations for some r in 0..n (other tables untouched, catalog intact), "
             "then 1-3 follow-up multi-row inserts run on the recovered files and are compared with the model continued from that prefix. "
-            "One case in five starts with 7-11 tables (multi-page catalog). One case in six has a restart inside the history (burst of CREATE TABLEs, restart, root-moving INSERT); follow-up inserts go into every table. After the follow-up inserts the process ends (cleanly / by death, alternating) and starts a second time; the state must be the same. In half of the cases crash images are taken before every PHYSICAL write to the log file (the file is wrapped on request, hook wal.fwrite), in the other half before the logical write in wal.flush; always before every fsync. Non-trivial: a victim with >=3 row operations whose images recovered to at least two different prefixes r (e.g. r=0 before the log write and r=n after the write but before its fsync; proper prefixes 0<r<n are labelled separately); distinct by case JSON.",
+            "One case in five starts with 7-11 tables (multi-page catalog). One case in six has a restart inside the history (burst of CREATE TABLEs, restart, root-moving INSERT); follow-up inserts go into every table. After the follow-up inserts the process ends (cleanly / by death, alternating) and starts a second time; the state must be the same. In half of the cases crash images are taken before every PHYSICAL write to the log file (the file is wrapped on request, hook wal.fwrite), in the other half before the logical write in wal.flush; always before every fsync. Non-trivial: a victim with >=3 row operations whose images recovered to at least two different prefixes r (e.g. r=0 before the log write and r=n after the write but before its fsync; proper prefixes 0<r<n are labelled separately); distinct by case JSON. Since round 12: aged databases in three cases of eight.",
     "technique": "fault injection at every log write/fsync call of generated victim statements (rapid + build-tag hook), prefix-state oracle from a reference model",
     "level_text": "All log-write crash points of each generated victim statement are enumerated (exhaustive per statement, both tail-cut variants) and recovered with the real code; histories and victims are random.",
     "level_note": "Crash = process death at a write-call boundary (the property's own granularity); a torn individual write() is not generated. Trusted: reference model with prefix semantics, hook placement (before each Write/Sync in wal.flush).",
@@ -72,8 +72,8 @@ PROPS["C04"] = {
             "the one in shutdown, and the one that ends recovery of the crashed image) is recorded through the hooks and its torn states are composed: pre-flush file + subset S of the flushed pages + old header, "
             "all 2^|D| subsets for |D|<=6 else >=64 sampled incl. all singletons and co-singletons; each composed image is recovered with the real InitStorage and compared with the model of all statements acknowledged "
             "before the flush began (an in-flight CREATE TABLE may or may not exist). Subsets inside the listed finding's region (proper non-empty subsets of a flush that wrote a page at/after the on-disk allocation frontier) are "
-            "excluded from the verdict, counted, and a sample of them is recovered in a child process for the statistics. Low-rate profiles: 4-8 tables up front with further CREATE TABLEs (a flush has to publish a new catalog root), and an unflushed 1040-1400 row bulk load (one flush of several hundred pages). After recovering a torn state (first, last, all-pages and every third composition) one more INSERT per table is issued (newest table first), the process dies again without a flush and the second recovery is compared too. One case in four carries refused INSERTs between its statements. Non-trivial: a case with a flush of >=2 dirty pages for which a proper non-empty subset outside the region was recovered; distinct by case JSON.",
-    "technique": "fault injection by composing torn flush states (page subsets) per recorded flush of generated histories (rapid + hooks), recovery compared with a reference model",
+            "excluded from the verdict, counted, and a sample of them is recovered in a child process for the statistics. Low-rate profiles: 4-8 tables up front with further CREATE TABLEs (a flush has to publish a new catalog root), and an unflushed 1040-1400 row bulk load (one flush of several hundred pages). After recovering a torn state (first, last, all-pages and every third composition) one more INSERT per table is issued (newest table first), the process dies again without a flush and the second recovery is compared too. One case in four carries refused INSERTs between its statements. Non-trivial: a case with a flush of >=2 dirty pages for which a proper non-empty subset outside the region was recovered; distinct by case JSON. Second part since round 12: one case per shard (thorough: eight) is run by a child process under strace, which kills it on entering the N-th pwrite64 for every physical write N of a flush that follows UPDATE/DELETE statements only; the parent recovers and compares with all (acknowledged) statements.",
+    "technique": "fault injection by composing torn flush states (page subsets) per recorded flush of generated histories (rapid + hooks), recovery compared with a reference model; plus process death injected at every physical pwrite64 of a flush (strace) in a child process",
     "level_text": "Per generated history every flush is attacked with all (or >=64 sampled) page-subset torn states at page granularity, which covers every write order Go's map iteration could take; histories are random. The region of the listed structural finding is excluded by construction and counted.",
     "level_note": "Page-granular tearing (a torn 4096-byte write is not generated); crash = process death. Trusted: the composition (checked against the real file after each flush by construction: S=D + new header is the real post image), reference model.",
     "assumptions": ["a single page write is atomic", "crash = process death, completed writes are in the file"],
@@ -124,7 +124,7 @@ PROPS["C06"] = {
     "rule": "rapid-generated cases: 1-3 tables (INT key over {0..3} so keys repeat and rows stay unmatched, shared and table-unique column names, 0-12 rows, empty tables included) and 1-8 queries with a left-deep chain of 1-2 joins "
             "(JOIN / INNER JOIN / LEFT JOIN / RIGHT JOIN, the same table twice under two aliases allowed), ON = 1-2 comparisons (=, <, !=, >=; AND or OR) between columns of tables that cannot be NULL-padded at that point (plus, in a second join, equality against a column of a NULL-padded table, which is never true for the padded rows), "
             "select list * or qualified/unique-unqualified columns, optional WHERE on a never-padded column, all as SQL text; 1 in 6 queries misaddresses a column on purpose (unqualified but present on both sides; name-qualified although aliased; unknown) and must be rejected. "
-            "Oracle: reference nested loops + NULL padding compared as multisets of value tuples, headers compared. Tables may share a VARCHAR column s and ON may contain s = s next to the INT comparison (composite keys whose printed concatenations coincide). One ON conjunct in twelve compares two literals; in one case of four sys_schema takes part in the joins. Non-trivial: two-join chain, or self-join, or a NULL-padded row together with a duplicated join key, or a must-be-rejected query; distinct by (tables, query) JSON.",
+            "Oracle: reference nested loops + NULL padding compared as multisets of value tuples, headers compared. Tables may share a VARCHAR column s and ON may contain s = s next to the INT comparison (composite keys whose printed concatenations coincide). One ON conjunct in twelve compares two literals; in one case of four sys_schema takes part in the joins. Non-trivial: two-join chain, or self-join, or a NULL-padded row together with a duplicated join key, or a must-be-rejected query; distinct by (tables, query) JSON. Since round 11 now and then an input of 32-100 rows; since round 12 must-be-rejected queries with two occurrences under one name and ambiguous operands anywhere in ON.",
     "technique": "property-based differential testing (rapid) against a reference join evaluator, multiset comparison; negative cases for addressing rules",
     "level_text": "Random search over small tables and join chains against the relational definition. Search, not proof.",
     "level_note": "Trusted: harness/ref. ON/WHERE never touch NULL-padded columns (SQL three-valued logic is outside the property). Result order is not compared.",
@@ -150,7 +150,7 @@ PROPS["C08"] = {
             "(INT/BIGINT extremes, 2^53+1, empty strings, NUL/0xFF/invalid UTF-8 bytes, NULLs), rows built to encode to exactly 400 bytes (must be accepted) and 401 bytes (must be refused), wrong-kind values, INT beyond 32 bits; "
             "each statement as SQL text when the dialect can express it, else as direct statement values. After every statement SELECT * must equal the model bit-for-bit (refused statements: error and unchanged table); "
             "the comparison is repeated after flush + cache shrink to 6 pages + scan of another table (eviction, reload from disk), after a clean restart, (one case in three) after USE of another database and back, and (phase 2, unflushed) after crash + recovery. "
-            "Operations include single-row DELETEs; the case ends with one more clean restart after the crash + recovery. One INSERT in three names all columns in a permuted order. Pairs of UPDATEs whose texts differ only in white space inside the string literal. One-statement UPDATEs over all rows. Non-trivial: a 400-byte boundary row with at least one reload, or a refused value placed in a column that is not the first; distinct by case JSON.",
+            "Operations include single-row DELETEs; the case ends with one more clean restart after the crash + recovery. One INSERT in three names all columns in a permuted order. Pairs of UPDATEs whose texts differ only in white space inside the string literal. One-statement UPDATEs over all rows. Non-trivial: a 400-byte boundary row with at least one reload, or a refused value placed in a column that is not the first; distinct by case JSON. Since round 12: aged databases (row ids / LSNs around 2^16, 2^24, 2^31, 2^32 and beyond, hook VerifAdvanceCounters) in three cases of eight; a refused CREATE TABLE with another column list first in every new session in half of the cases.",
     "technique": "property-based round-trip testing (rapid) across four observation points (memory, reloaded page, restart, crash recovery) against a reference model with its own size/validity rules",
     "level_text": "Random search biased to encoding boundaries; the 400/401 boundary is computed by the model's own size formula, not taken from the code. Search, not proof.",
     "level_note": "Trusted: model.EncodedSize / ValidateValue (written from the documented row format), exact Go-value comparison. Multi-row failing statements are C14's business and not generated here.",
@@ -163,7 +163,7 @@ PROPS["C14"] = {
             "and INSERT with column-count mismatch / type mismatch / INT out of range / oversize row where the offending row sits at every index k of n rows, UPDATE with a bad value, UPDATE that becomes oversize only at the k-th matching row, CREATE TABLE whose k-th column the catalog cannot record, DELETE/UPDATE whose WHERE cannot be evaluated for a later row, the table addressed in another letter case (the last three are the implementation's choice to refuse: checked as implication only). "
             "Oracle: an error is returned and every table, row id and the catalog equal the model of the history, immediately, after crash + recovery of the files as they are, and after (optional tick +) clean restart; then a valid insert per table must work. "
             "A deviation that is exactly 'the row operations before the offending one stayed applied' is classified as the listed finding C14-multirow-partial-apply (counted, not raised); anything else is a violation. "
-            "Every shard also runs one fixed huge VALID statement (3000-5500 row INSERT/UPDATE, 7000-12000 row DELETE) under the implication-only oracle (if it fails, nothing stays behind). Further implication-only kind: CREATE TABLE naming a column twice. After a failure on an unknown table half of the cases create that table in the same session, fill it and compare. One case in four issues a refused USE before the failing statement. Non-trivial: multi-row statement with the offending row not first, or unflushed changes present before the failing statement; distinct by case JSON.",
+            "Every shard also runs one fixed huge VALID statement (3000-5500 row INSERT/UPDATE, 7000-12000 row DELETE) under the implication-only oracle (if it fails, nothing stays behind). Further implication-only kind: CREATE TABLE naming a column twice. After a failure on an unknown table half of the cases create that table in the same session, fill it and compare. One case in four issues a refused USE before the failing statement. Non-trivial: multi-row statement with the offending row not first, or unflushed changes present before the failing statement; distinct by case JSON. Since round 12 a failing UPDATE is, one time in two, sandwiched between two valid UPDATEs of the same rows.",
     "technique": "property-based testing (rapid) of failing statements against a reference model, observed at three points (memory, crash recovery, restart)",
     "level_text": "Random search over states and failing statements with the offending row at every position. Search, not proof.",
     "level_note": "Trusted: model validity classification (model.Apply) and prefix semantics. The listed finding is recognised by its exact after-state; a different residue is reported.",
@@ -188,7 +188,7 @@ PROPS["C17"] = {
             "timer ticks (VerifTickAll runs flushPages on every store that owns a flush timer right now, oldest or newest first - including stores a USE left behind), clean restarts and crash restarts. "
             "Oracle: a model database per name; every operation's outcome class, storage.ShowDB() = the created names, the selected database compared after every USE / tick / statement, every database selected in turn and compared at each restart and at the end, "
             "row ids stable and never reused per database, and finally one more insert per table of every database must succeed. "
-            "One case in four draws full-range values including rows of exactly 400 bytes. Database names include prefix-related ones (shop/shop2/sho, d/d1/d1x). CREATE DATABASE with a 65-255 character name (a refusal must leave nothing behind). Non-trivial: >=2 databases with data, >=2 switches, >=1 tick after a switch and >=1 restart; distinct by case JSON.",
+            "One case in four draws full-range values including rows of exactly 400 bytes. Database names include prefix-related ones (shop/shop2/sho, d/d1/d1x). CREATE DATABASE with a 65-255 character name (a refusal must leave nothing behind). Non-trivial: >=2 databases with data, >=2 switches, >=1 tick after a switch and >=1 restart; distinct by case JSON. Since round 12 shard 0 first runs a fixed history: 5200 rows (thorough 12000) in one flush interval, USE other, USE back, restart.",
     "technique": "stateful property-based testing (rapid) of the session layer against a per-database reference model, with the flush timers made explicit and deterministic by hooks",
     "level_text": "Random search over USE/CREATE DATABASE/restart interleavings with deterministic timer ticks. Search, not proof.",
     "level_note": "Trusted: the store registry hook (VerifTickAll does exactly what each live 100 ms timer does), lower-case database names (one file pair per lower-cased name).",
@@ -212,7 +212,7 @@ PROPS["C15"] = {
     "rule": "operation sequences over LRUCache.set (clean or already-dirty page, same or fresh page object) / get / markDirty / markClean, run against the real cache and a list-based reference model written from the property's text; after EVERY step the boolean of set, "
             "(page identity, found) of get, resident key set, recency order (read from the internal list), index/list consistency and size <= capacity are compared. (a) bounded-exhaustive: all sequences of depth 5 (thorough: 6) over capacities 1-3 with capacity+1 keys "
             "(alphabet 10-20 operations, split over the shards by first operation); (b) rapid: sequences of 20-400 operations at capacities 1-6 and 200-2000 operations at capacities 5-64. "
-            "Pages are a mix of leaf and internal nodes; one random case in a hundred uses capacities 1025-2500 with run-length insertions. The reference model owns its dirty flags (compared with the page's own flag after every step); the LSN of a dirty transition varies, downwards too. Lookups come in bursts of up to 300. Keys are page offsets (uint64); scans over consecutive pages are an operation. Second part: random fetch / dirty / flush on a real file store with a 4-24 page cache; a page handed out must be the object cached for its offset, each page cached once, fetch refused only when the cache is full of dirty pages. Non-trivial: the sequence performed an eviction that had to skip a dirty entry, or an insertion that was refused; distinct by sequence JSON. Store part since round 11: flushes against a data file that refuses every write (pages that were dirty must stay dirty) and a closing read-back of every changed page from the file (stamp of its last change).",
+            "Pages are a mix of leaf and internal nodes; one random case in a hundred uses capacities 1025-2500 with run-length insertions. The reference model owns its dirty flags (compared with the page's own flag after every step); the LSN of a dirty transition varies, downwards too. Lookups come in bursts of up to 300. Keys are page offsets (uint64); scans over consecutive pages are an operation. Second part: random fetch / dirty / flush on a real file store with a 4-24 page cache; a page handed out must be the object cached for its offset, each page cached once, fetch refused only when the cache is full of dirty pages. Non-trivial: the sequence performed an eviction that had to skip a dirty entry, or an insertion that was refused; distinct by sequence JSON. Store part since round 11: flushes against a data file that refuses every write (pages that were dirty must stay dirty) and a closing read-back of every changed page from the file (stamp of its last change). Since round 12 the store part also creates / flushes a second database of the same process in between.",
     "technique": "model-based property testing (rapid) + bounded-exhaustive enumeration of operation sequences against a reference LRU",
     "level_text": "Exhaustive to depth 5/6 in small scopes, random beyond. Search, not proof.",
     "level_note": "Trusted: the reference model in the test (list with dirty flags). In-package: reads LRUCache.list and .cache directly.",
@@ -226,7 +226,7 @@ PROPS["C11"] = {
             "close/reopen and crash + WAL recovery; after EVERY operation a page-graph walker written from the definition checks the catalog trees and every user tree of the file: keys strictly ascending within and across leaves, every key inside the bounds given by its ancestors' separators, "
             "separators strictly ascending, all leaves at one depth, no page reachable twice over all trees, no node over capacity and every node encodes to 4096 bytes, left-to-right sibling chain = leaves in tree order = reverse of the right-to-left chain, every live key found by findCell from the root and no tombstoned one, live keys = what the history implies. "
             "Plus a fixed history of 1400 logged rows in one table with reopen and crash + recovery in between (start-up replay over a three-level tree; shard 3), and a direct BTree.insert driver: 200 000 ascending keys into the in-memory store (4 levels; shard 0), 3 000 keys on a file store with flush + cold cache between batches (shard 1; thorough: 200 000 on file, shard 2), walker run at growing intervals. "
-            "One history in five runs over 7-11 trees (multi-page catalog). Tree names are chosen so that several are proper prefixes of names created earlier. Operation 'wipe': every live row of a tree deleted in one go. Non-trivial: a tree of height >= 2 with >= 3 leaves and a reload between two splits of the same tree; distinct by history JSON.",
+            "One history in five runs over 7-11 trees (multi-page catalog). Tree names are chosen so that several are proper prefixes of names created earlier. Operation 'wipe': every live row of a tree deleted in one go. Non-trivial: a tree of height >= 2 with >= 3 leaves and a reload between two splits of the same tree; distinct by history JSON. Since round 11 the big-tree driver reloads right after internal splits; since round 12 one history in six runs in a sparse data file whose allocation frontier stands at 16 MiB / 2 GiB / 4 GiB.",
     "technique": "stateful property-based testing (rapid) with a structural invariant walker after every step; deterministic large-tree driver",
     "level_text": "Every reachable tree state of the generated histories is checked against the full shape invariant; deep trees (3-4 levels) are reached by the direct driver. Search, not proof.",
     "level_note": "Trusted: the walker (in-package, reads node structs). Keys ascend (engine's shared counter / WAL replay); random-order insertion is outside the property.",
@@ -251,7 +251,7 @@ PROPS["C20"] = {
     "rule": "rapid-generated console sessions fed to the real Terminal (NewTerminal / ReadLine, separate reader and writer): 1-6 statements of 1-10 tokens each ending in ';', with single- and double-quoted literals containing semicolons, the other quote character, spaces, multi-byte runes, comment openers; "
             "line breaks (CR, LF CR, CR LF, with trailing spaces, empty lines) at token boundaries and Enter pressed inside a literal (which the console turns into a space, also right after an in-literal semicolon), several statements per line or one over many lines; the byte stream is delivered bytewise (typed), in one piece (pasted), or in generated chunk sizes 1-40 that split multi-byte runes and escape sequences; "
             "1 in 6 sessions is wrapped in bracketed-paste markers. Oracle: the statements returned by successive ReadLine calls, concatenated, are exactly the entered statements, once each and in order, equal after collapsing white space outside quotes (quoted text byte for byte). "
-            "Literals include non-graphic characters (zero-width joiners, soft hyphen, BOM, private use, emoji ZWJ sequences). Second part: the console PROGRAM (this test binary in a child mode calling main()) on a pseudo terminal: lines of valid and failing statements are typed, then the database it left behind must hold exactly the valid INSERTs, in order. Third part: statements corrected while typing (cursor keys, insertions) against a small model of the line editor. Non-trivial: a literal containing ';' and a statement that spans two lines or shares its line; distinct by case JSON.",
+            "Literals include non-graphic characters (zero-width joiners, soft hyphen, BOM, private use, emoji ZWJ sequences). Second part: the console PROGRAM (this test binary in a child mode calling main()) on a pseudo terminal: lines of valid and failing statements are typed, then the database it left behind must hold exactly the valid INSERTs, in order. Third part: statements corrected while typing (cursor keys, insertions) against a small model of the line editor. Non-trivial: a literal containing ';' and a statement that spans two lines or shares its line; distinct by case JSON. Since round 12 the editing part recalls statements from the history (arrow up / down), submits them again, also with text appended.",
     "technique": "property-based testing (rapid) of the terminal line discipline with a by-construction oracle (in-package main)",
     "level_text": "Random search over statement lists, layouts and read chunkings. Search, not proof.",
     "level_note": "A line break typed inside a literal becomes a space (the console's documented line joining), the oracle expects exactly that; no backslashes in literals; inputs stay below the terminal's 4096-rune line limit. ErrPasteIndicator is treated as 'line data returned' as x/term documents.",
@@ -263,7 +263,7 @@ PROPS["C13"] = {
     "rule": "rapid-generated schedules: 6-14 statements (CREATE TABLE, INSERT, UPDATE, DELETE, SELECT) run through a Session with the REAL 100 ms flush timer in a binary built with -race; for up to 4 generated statements the verif hook parks the session goroutine for 120-350 ms (1-3 ticks) "
             "at the statement's log write (all its page changes done, log append pending) or, for statements that do not log (CREATE TABLE, SELECT), at a generated page lookup; generated idle gaps of 0-150 ms let ticks land before, inside and after statements. "
             "Oracles: (1) monitor: while a statement is parked no flush, page write or header write may happen on another goroutine; (2) every race-detector report with one side inside engine.EvaluateCreateTable/Insert/Update/Delete/Select and the other inside the flusher is a violation "
-            "(other reports, e.g. USE racing the timer, are counted as out of scope); (3) table contents equal the model afterwards. One schedule in eight is a bulk schedule: 520-1100 rows, then whole-table UPDATE/DELETE/SELECT statements held open at an early page lookup. Half of the SELECTs are chains of one or two joins (several table fetches inside one bracket). One step in ten is a statement on a table that does not exist (sent through the session). One SELECT in six reads the catalog tables. Non-trivial: a DDL/DML statement was parked and the flusher demonstrably waited (it flushed within 60 ms after the park ended); distinct by schedule JSON. Since round 11 three schedules in five watch the physical log writes (VerifWrapLog): at every flusher write all bytes appended to the log must have reached the log file; two in five on a store opened without fsync through the Go API.",
+            "(other reports, e.g. USE racing the timer, are counted as out of scope); (3) table contents equal the model afterwards. One schedule in eight is a bulk schedule: 520-1100 rows, then whole-table UPDATE/DELETE/SELECT statements held open at an early page lookup. Half of the SELECTs are chains of one or two joins (several table fetches inside one bracket). One step in ten is a statement on a table that does not exist (sent through the session). One SELECT in six reads the catalog tables. Non-trivial: a DDL/DML statement was parked and the flusher demonstrably waited (it flushed within 60 ms after the park ended); distinct by schedule JSON. Since round 11 three schedules in five watch the physical log writes (VerifWrapLog): at every flusher write all bytes appended to the log must have reached the log file; two in five on a store opened without fsync through the Go API. Since round 12 one schedule in three ends with Session.Close from another goroutine (the console's signal handler) while the last statement is held open.",
     "technique": "schedule-controlled testing: generated delay injection through build-tag hooks + happens-before race detection (-race) as a sanitizer, scoped to the property",
     "level_text": "The weakest check: a few dozen harness-owned schedules; happens-before detection does not depend on the observed timing, parking makes the overlapping accesses actually occur. Interleavings the parked schedules never bring together are missed; failures do not shrink.",
     "level_note": "Wall-clock time decides only WHICH schedules are exercised, never the verdict. Trusted: the hook placement (before log writes, inside flushPages under the lock, in setCache), Go's race detector.",
